@@ -37,6 +37,7 @@ ECLS = {
     "NoCandidateException": "ENoCandidate",
     "MetadataError": "EMetadata",
     "CompilationError": "ECompilation",
+    "OSError": "EOSError",
 }
 DELETERS = {("shutil", "rmtree"), ("os", "remove"), ("os", "rmdir"), ("os", "unlink"), ("os", "removedirs")}
 
